@@ -91,7 +91,7 @@ func TestC04(t *testing.T) {
 	curProp = "C04"
 	r := vf.NewRec("C04")
 	defer r.Finish(t)
-	guard.StartWatchdog(*vf.Out, "C04")
+	guard.StartWatchdog(*vf.Out, vf.Label("C04"))
 
 	replayFrameCases(t, r, checkC04)
 	if vf.ReplayOnly() {
